@@ -108,7 +108,8 @@ CHECKS = {
          "are executable Lean and agree with the implementation on every generated plan (all methods, block types, windows, reserves, split sets, parameter settings, both systems); "
          "the implementation is judged against the plan itself (listing and bytes). Bit-level decoder round trips are not theorems yet."
          " Since then proved: C01_headers_roundtrip (cabd_read_headers on the specification writer's bytes lists exactly the specified folders and files, any prefix, strict and salvage) and C01_stored_extract (for every list of well-formed CFDATA blocks of a stored folder, every member, every DECOMPBUF, a first extract() returns OK and exactly the member's bytes); the writer is itself fed to the real cabd_open."
-         " MSZIP: for every frame the deflate specification writer lays out from stored and fixed-Huffman blocks (literals and matches of every length and distance class) the decoder model returns exactly the specified data (C01Mszip); the writer is fed to the real decoder."),
+         " MSZIP: for every frame the deflate specification writer lays out from stored and fixed-Huffman blocks (literals and matches of every length and distance class) the decoder model returns exactly the specified data (C01Mszip); the writer is fed to the real decoder."
+         " LZX: streams of uncompressed blocks (any block list below 2 GiB, every window size, any buffer size and chunking, any split into calls) decode to exactly the data (C01Lzx)."),
    note=PROOF_NOTE + " Quantum's arithmetic coder has no independent specification (the generator's encoder inverts qtmd.c).",
    technique="Lean 4 (decide +kernel over regenerated tables; executable model) + plan-oracle and model/implementation differential runs"),
  "C18": dict(category="proof",
